@@ -1328,7 +1328,7 @@ fn collect_triple_variables(triple: &PropositionTriple, out: &mut BTreeSet<Strin
     }
 }
 
-fn collect_term_variables(term: &Term, out: &mut BTreeSet<String>) {
+pub fn collect_term_variables(term: &Term, out: &mut BTreeSet<String>) {
     match term {
         Term::Variable(name) => {
             out.insert(name.clone());
